@@ -125,6 +125,19 @@ CLAIMED = {
              "are outside the model — with an empty footprint the conclusion does not depend on the granularity. The footprint scan is a "
              "syntactic over-approximation with two stated exceptions (slice writes into library-allocated buffers; helpers handed fresh copies).",
         technique="Coq non-interference proof over regenerated constructors + regenerated footprint scan + controlled-scheduler runs"),
+    "C11": dict(
+        text="Machine-checked proof (Coq): every `while` loop of every response / sense / parameter decoder is REGENERATED from /repo as a "
+             "skeleton (loop condition, bytes consumed per iteration); the generic theorem skeleton_terminates shows that a loop whose "
+             "every iteration consumes at least one byte finishes within len(buffer) iterations for ALL byte strings and whatever the "
+             "body computes; the per-loop obligation (stride >= 1, decided by vm_compute on the regenerated skeleton) and the `for` loops "
+             "(over a buffer slice, a caller range or a dict) are checked on every run. Every public decoder is also run on the real code "
+             "under a line-count budget linear in the buffer length on empty, truncated, all-zero, all-0xFF, zero-length-field, "
+             "huge-length-field and random buffers.",
+        ref="DESIGN.md §4 C11",
+        note="Trusted: Coq kernel + vm_compute; the loop-skeleton translator (fail-closed: unknown loop shapes are listed and must be empty); "
+             "the budget oracle's constant (1500 lines/byte + 5000). Partial: the skeleton abstracts the loop bodies (they only matter "
+             "through the stride); memory growth is bounded through the iteration count, not measured.",
+        technique="Coq termination proof over regenerated loop skeletons + linear line-budget runs of the implementation"),
     "C10": dict(
         text="Machine-checked proof (Coq 8.16.1) of the codec laws for every buffer size, every contiguous mask at any "
              "alignment, every offset, every in-range value, every field order and arbitrary prior contents "
